@@ -22,12 +22,14 @@ let int_of_n = function N0 -> 0 | Npos p -> int_of_string (string_of_pos_fast p)
 let rec read_val () : val0 =
   match next () with
   | "Z" -> VZ (next_z ())
+  | "Q" -> mkq (next_q ())
   | "T" -> let tag = n_of_int (next_int ()) in let l = next_list read_val in VT (tag, l)
   | "E" -> VErr
   | s -> failwith ("val " ^ s)
 
 let rec string_of_val = function
   | VZ z -> string_of_z z
+  | VQ x -> string_of_q x
   | VT (tag, l) -> "[" ^ string_of_int (int_of_n tag) ^ ":" ^ String.concat "," (List.map string_of_val l) ^ "]"
   | VErr -> "E"
 
@@ -35,6 +37,7 @@ let op_of_string s : opcode =
   match s with
   | "add" -> OAdd | "sub" -> OSub | "rsub" -> ORSub | "mul" -> OMul | "neg" -> ONeg | "abs" -> OAbs
   | "floordiv" -> OFloorDiv | "rfloordiv" -> ORFloorDiv | "mod" -> OMod | "rmod" -> ORMod
+  | "div" -> ODiv | "rdiv" -> ORDiv | "pow" -> OPow | "rpow" -> ORPow | "divmod" -> ODivmod | "rdivmod" -> ORDivmod
   | "getitem" -> OGetItem | "len" -> OLen | "id" -> OId | "call" -> OCall
   | _ ->
     if String.length s > 2 && String.sub s 0 2 = "mk" then OMk (n_of_int (int_of_string (String.sub s 2 (String.length s - 2))))
